@@ -16,6 +16,13 @@ CLAIMED = {
         ref="DESIGN.md section 3 C04"),
 }
 
+CLAIMED["C03"] = dict(
+    engine="E2-pysym",
+    technique="AST->SMT (z3 Float64) translation of Evaluator.evaluate_individual, threshold-completeness query over all constraint counts; plus CrossHair execution of the real Evaluator over all declaration orders",
+    text="z3 decides, on a formula generated from the current source of Evaluator.evaluate_individual/_evaluate_constraints/ConstraintFitness.fitness and IoEvaluator.evaluate_individual, that no counts h, r <= 64 (thorough 1000) of satisfied hard/repetition-bound constraints make an all-satisfied first-seen tree miss the acceptance threshold (IEEE-754 double, RNE). The translator is validated on >=200 random concrete vectors against the real Evaluator (bit-identical floats); class-mean lemma proved for k<=12 (64). Declaration orders: CrossHair executes the real constructor and evaluate_individual for every hard/rep order of length <= 6 (10).",
+    note="Trusted: z3 5.1 FP theory, engine/pysym.py (validated per run), stubs listed in evidence (cache miss, first-seen tree, logging no-op). Outside: soft constraints, more constraints than the bound, protocol-message gating of IoEvaluator.",
+    ref="DESIGN.md section 3 C03")
+
 NOT_APPLICABLE = {
     "C08": "the translator under test is ANTLR-generated lexer/parser code plus visitors over its parse tree; a symbolic program text is realised character by character by the ATN simulator, so no solver-based engine here can quantify over programs (DESIGN.md section 5)",
     "C14": "one side is a compiled C++ extension (sa_fandango_cpp_parser.so); CrossHair realises at the C boundary and no IR-level symbolic engine for C++ is available (DESIGN.md section 5)",
